@@ -4,7 +4,7 @@ TRUSTED_ALWAYS = [
     "pyvc: own ast->z3 symbolic interpreter (/verif/pyvc), validated by canaries on every run and by the mutation corpus",
     "z3 5.1.0 / cvc5 1.0.3 soundness",
     "CPython semantics of the interpreted subset as encoded by pyvc (DESIGN.md 2.4-2.5)",
-    "A7: message formatting and logging calls are pure and do not raise (arguments not evaluated)",
+    "A7: logging calls are pure; the arguments of a raised exception are evaluated for the exceptions they can raise (their value is not kept), except where they leave the supported subset - there message formatting is assumed pure",
 ]
 
 ASSUMPTIONS = {
@@ -19,11 +19,11 @@ ASSUMPTIONS = {
     "A9-fmt": "A9-fmt: default float formatting yields a non-empty string over [0-9.e+-]; variable names used in the harnesses are delimited from it (first character a letter other than e)",
     "contract of same_term_list": "call-site contract of PolyhedralSyntaxAbsoluteTerm.same_term_list (proved by SyntaxAbsoluteTerm.same_term_list[*])",
     "A-card": "cardinality lemma: len(set(L)) == len(L) iff L is duplicate-free (pure mathematics, used by the list abstraction; proved in Lean 4/Mathlib: lemmas/A3.lean theorem A_card_nodup, re-checked by bin/selftest; what stays assumed is that Python's set/len implement it)",
-    "A1": "A1: floats are treated as mathematical reals (no rounding, overflow, nan, inf, -0.0); what this hides is what the bounded monitor looks at",
+    "A1": "A1: floats are treated as mathematical reals (no rounding, overflow, nan, inf, -0.0; round() is an uninterpreted function); what this hides is what the bounded monitor looks at",
     "A2": "A2: Var equality/hash is name equality (checked by the VCs on Var.__eq__/__hash__), dict iteration order irrelevant",
     "A3": "A3: finite sums are bilinear: linear functionals are affine along segments (comb points instantiated explicitly; proved in Lean 4/Mathlib: lemmas/A3.lean theorems A3_affine_along_segments / A3_convex_combination, re-checked by bin/selftest)",
     "A4": "A4: ideal contract of scipy.optimize.linprog(c, A_ub, b_ub, bounds=(None,None)): status in {0,2,3}; 2 iff infeasible; 3 iff feasible and unbounded; 0 => x feasible, fun = c.x minimal, slack = b - A x (assumed; the real HiGHS is exercised by the bounded monitors)",
-    "A5": "A5: numpy array operations used by the code (array, concatenate, delete, copy, zeros, indexing, scalar multiply, isclose, where) have their list/real meaning",
+    "A5": "A5: numpy array operations used by the code (array, concatenate, delete, copy, zeros, reshape, indexing, scalar multiply, isclose, where, any; linalg.norm as the non-negative root of the sum of squares) have their list/real meaning",
     "A6": "A6: sympy.solve on a square linear system returns a dict iff the solution is unique, and then every point satisfying the equations satisfies var = solution",
     "A9-repr": "A9: default float formatting (str/repr) is injective on reals (A1 excludes -0.0/nan)",
     "contract of verify_polytope_containment (h_lp)": "call-site contract of verify_polytope_containment, proved in domain H for <=3x3 rows and any dimension",
@@ -186,7 +186,7 @@ PLAN = {
         "m_misc",
     ),
     "C17": _mixed("Bounded monitor at this stage (compound contracts over polyhedral alternatives); the nested-list functions are under contract where registered (see per_contract).", "m_misc"),
-    "C18": _mixed("Bounded monitor against exact rational vertex enumeration (Qhull / atan2 are outside the verifier's reach); reduction obligations where registered (see per_contract).", "m_io"),
+    "C18": _mixed("Obligations: the 2-column system handed to the vertex routine is exactly the slice; the Chebyshev-centre LP, the halfspace encoding given to Qhull, the pass-through of its corners, the LP fallback and the permutation by angle (see per_contract). Qhull itself is the assumed contract A10 and atan2 an uninterpreted function: that the returned points ARE the corners is decided by the bounded monitor against exact rational vertex enumeration.", "m_io"),
     "C19": _mixed(
         "Domain S obligations on PolyhedralTerm.__eq__ (iff same coefficients and constant, symmetric), __hash__ (congruent with ==), copy (equal, fresh), __init__ (zero coefficients dropped); TermList.copy and IoContract.copy in domain U. "
         "Contract-level ==/hash and float corner cases (-0.0): bounded monitor with single-field edits.",
